@@ -26,8 +26,8 @@ func init() {
 			"for a registered decoration whose name collides (case-insensitively) with a sub-package name, bare NAME may select either, provided it is accepted and renders",
 			"the registry is process-global and cannot be reset: every execution registers names carrying a unique serial, and listing content is compared as a superset/sortedness/duplicate property"},
 		QuickBudget: 120 * time.Second, ThoroughBudget: 20 * time.Minute,
-		Shards:      16,
-		Run:         runC19,
+		Shards: 16,
+		Run:    runC19,
 	})
 }
 
